@@ -86,12 +86,12 @@ theorem compactArrayLengthTail_eq (raw : Bytes) (n : Nat) (hn : n < 184467440737
   generalize compactLen n = L
   by_cases h : n = 0
   · have h0 : wrap64 (n : Int) = 0 := by rw [h]; unfold wrap64; omega
-    simp only [h0, h, ↓reduceIte]
+    rw [if_pos h0, if_pos h]
   · have h2 : ¬ wrap64 (n : Int) = 0 := by unfold wrap64; omega
-    simp only [h2, h, ↓reduceIte, true_and]
-    by_cases h3 : L < 0 ∨ L > rem raw off1
-    · simp only [h3, ↓reduceIte]
-    · simp only [h3, ↓reduceIte]
+    rw [if_neg h2, if_neg h]
+    rcases Classical.em (L < 0 ∨ L > rem raw off1) with h3 | h3
+    · rw [if_pos h3, if_pos ⟨rfl, h3⟩]
+    · rw [if_neg h3, if_neg (fun hh => h3 hh.2)]
 
 theorem getBoolTail_eq (b : Int) (nilE eB : Int) :
     Gen.C10.getBoolTail b nilE nilE eB = (if b = 0 then (false, nilE) else if b ≠ 1 then (false, eB) else (true, nilE)) := by
